@@ -431,6 +431,8 @@ class Gen:
             name = "age"
             strata = list(r.choice(AGE_SETS))[: max(2, o.max_strata)]
             if r.random() < 0.3: strata = list(reversed(strata))
+            elif len(strata) >= 3 and (len(self.strats) + len(self.flows)) % 2 == 0:
+                strata = [strata[0]] + list(reversed(strata[1:])); self.count("strat:age_breakpoints_listed_out_of_order")   # "0" first, the others descending
         else:
             name = "strain"
             strata = STRAIN_STRATA[: r.randint(1, min(2, o.max_strata))]
